@@ -1,7 +1,8 @@
 /-
-  Lemmas/FwsStep — one iteration of the removal loop: in a strictly valid forest (no adjacent
-  text nodes) `remove` of a text node deletes that node and nothing else (`pruned`), no
-  consolidation fires; positions of everything that is not deleted survive.
+  Lemmas/FwsStep — one iteration of the removal loop: with consolidation off (as the loop runs
+  since /repo 1e1d5fd), and also in a strictly valid forest (no adjacent text nodes), `remove` of
+  a text node deletes that node and nothing else (`pruned`), no consolidation fires; positions
+  of everything that is not deleted survive.
 -/
 import XotModel.Lemmas.FwsPrune
 
@@ -311,6 +312,38 @@ theorem remove_text {g : Forest} (nd : g.allHandles.Nodup) (hv : validList true 
     {k : HTree} {anc : List HTree} (o : Occurs g k anc) (hk : k.value.isText = true) :
     (g.remove k.handle).1 = pruned g (fun h => h == k.handle) := by
   rw [remove_eq_drop nd hv o hk, dropSubtree_text nd o hk]
+
+/-! ### the loop runs with consolidation switched off -/
+
+theorem dropSubtree_consolidation (g : Forest) (n : Nat) : (g.dropSubtree n).consolidation = g.consolidation := by
+  unfold Forest.dropSubtree Forest.cut
+  cases g.get? n with
+  | none => rfl
+  | some t =>
+    simp only
+    split <;> rfl
+
+/-- With consolidation off `remove` is `remove_subtree`. -/
+theorem remove_eq_drop_off {g : Forest} (hc : g.consolidation = false) (n : Nat) :
+    (g.remove n).1 = g.dropSubtree n := by
+  unfold Forest.remove
+  simp only
+  unfold Forest.removeConsolidate
+  simp [dropSubtree_consolidation, hc]
+
+/-- `remove` of a text node with consolidation off deletes exactly that node — whatever its
+    neighbours are. -/
+theorem remove_text_off {g : Forest} (nd : g.allHandles.Nodup) (hc : g.consolidation = false)
+    {k : HTree} {anc : List HTree} (o : Occurs g k anc) (hk : k.value.isText = true) :
+    (g.remove k.handle).1 = pruned g (fun h => h == k.handle) := by
+  rw [remove_eq_drop_off hc, dropSubtree_text nd o hk]
+
+/-- Positions only depend on the trees. -/
+theorem Occurs.of_roots_eq {f f' : Forest} (h : f.roots = f'.roots) {t : HTree} {anc : List HTree}
+    (o : Occurs f t anc) : Occurs f' t anc := by
+  induction o with
+  | root hr => exact .root (h ▸ hr)
+  | kid _ hk ih => exact .kid ih hk
 
 end Fws
 end XotModel
